@@ -19,7 +19,7 @@ View == pool
 Items == {"none", "lit", "var"}                 \* no item | <U1 5> | <U1 x>
 ItemBytes(it) == IF it = "lit" THEN [c |-> 41, b |-> <<5>>] ELSE NONE
 SidArgs == {-2, -1, 7, 65535, 65536}
-SysArgs == {<<1, 2>>, <<1, 2, 3, 4, 5>>, <<>>}
+SysArgs == {<<1, 2>>, <<1, 2, 3, 4, 5>>, <<>>, <<0, 0, 0, 1>>, <<1>>, <<0, 1>>}   \* (the last three: the same number, right-aligned)
 Complete(x) == x.w # 2 /\ x.item # "var" /\ x.sid # -1
 Bytes(x) == IF ~Complete(x) THEN <<>>
             ELSE EncMsg([kind |-> "data", sid |-> x.sid, w |-> x.w, s |-> x.s, f |-> x.f, sys |-> x.sys, item |-> ItemBytes(x.item)])
